@@ -1980,6 +1980,12 @@ fn maps_text(rng: &mut Rng) -> Vec<u8> {
         for i in 0..rng.below(3) {
             out.push_str(&format!("{:08x}-{:08x} rw-p 00000000 00:00 0 [heap]\n", 0x10000 * (i + 1), 0x10000 * (i + 1) + 0x1000));
         }
+        // well-formed entries whose address pair is a boundary of `memory_range()` / the lookup table: both ends 0,
+        // the whole address space, one byte, start above end, the top of the address space
+        if rng.chance(1, 2) {
+            let (lo, hi) = *rng.pick(&[(0u64, 0u64), (0, u64::MAX), (0x5000, 0x5000), (0x5001, 0x5000), (u64::MAX, u64::MAX), (u64::MAX - 1, u64::MAX), (0, 1)]);
+            out.push_str(&format!("{:x}-{:x} r--p 00000000 00:00 0 {}\n", lo, hi, rng.pick(&["", "[vdso]", "/lib/y.so"])));
+        }
         let path = *rng.pick(&[
             "/SYSV00000000 (deleted)", "/SYSV12", "/SYSV", "/SYSV1234567\u{e9}", "/SYSVzzzzzzzz", "[stack:12]", "[stack:", "[stack:7\u{e9}",
             "[stack:x]", "[anon:\u{e9}]", "[", "[\u{e9}", "/usr/lib/libc.so.6", "[stack:\u{e9}]",
